@@ -1,8 +1,334 @@
 import Karp.Driver.Proto
+import Karp.Model.WeightOrder
+import Karp.Model.PriceOrder
+import Karp.Model.FirstSuccess
+import Karp.Model.ReservedFallback
+import Karp.Spec.WeightPrice
+import Karp.Spec.PoolPass
 
 namespace Karp.Driver.C19
-open Lean Karp.Driver
+open Lean Karp.Driver Karp.WeightOrder Karp.PriceOrder Karp.FirstSuccess Karp.ReservedFallback Karp.Spec.WeightPrice Karp.Spec.PoolPass
 
-def handle : Handler := fun op _ _ => .error s!"unknown op {op}"
+/-! ## parsing -/
+
+def bytesOf (s : String) : List Nat := s.toUTF8.toList.map (·.toNat)
+
+def parseOp (s : String) : Except String Op :=
+  match s with
+  | "In" => pure .isIn
+  | "NotIn" => pure .notIn
+  | "Exists" => pure .exists_
+  | "DoesNotExist" => pure .doesNotExist
+  | _ => .error s!"operator {s} is outside the model"
+
+def parseReq (j : Json) : Except String Req := do
+  pure { key := ← strF j "key", op := ← parseOp (← strF j "op"), vals := ← (do strList (← fld j "vals")) }
+
+def parseReqs (j : Json) (k : String) : Except String (List Req) := do (← arrD j k).mapM parseReq
+
+def parseOffering (j : Json) : Except String Offering := do
+  pure { zone := ← strF j "zone", ct := ← strF j "ct", price := ← natF j "price", available := ← boolF j "avail" }
+
+def parseType (j : Json) : Except String IType := do
+  pure { name := ← strF j "name", offerings := ← (← arrD j "offerings").mapM parseOffering }
+
+def parsePType (j : Json) : Except String PType := do
+  pure { name := ← strF j "name", offerings := ← (← arrD j "offerings").mapM parseOffering,
+         cpu := (← natO j "cpu").getD 0, pods := (← natO j "pods").getD 0, overhead := (← natO j "overhead").getD 0 }
+
+def findType (its : List IType) (n : String) : Option IType := its.find? (·.name == n)
+
+/-- the named types, `none` if a name is unknown -/
+def typesNamed (its : List IType) (ns : List String) : Option (List IType) := ns.mapM (findType its)
+
+def distinctNames (its : List IType) : Bool := noDuplicates (its.map (·.name))
+
+/-! ## c19.weight -/
+
+def poolOfJson (j : Json) : Except String (Pool × String) := do
+  let name ← strF j "name"
+  let w := (← intO j "weight").getD 0
+  pure ({ name := bytesOf name, weight := w }, name)
+
+def weight (inp impl : Json) : Except String Resp := do
+  let ps ← (← arrF inp "pools").mapM poolOfJson
+  let pools := ps.map (·.1)
+  let nameOf (p : Pool) : String := ((ps.find? (fun q => q.1.name == p.name)).map (·.2)).getD "?"
+  let model := orderByWeight pools
+  let modelJ := jObj [("order", jArr (model.map (fun p => jObj [("name", jStr (nameOf p)), ("weight", jInt p.weight)])))]
+  let (specOk, why) ← match fldOpt impl "order" with
+    | none => pure (false, "implementation produced no order (panic?)")
+    | some o => do
+      let got ← (← asArr o).mapM poolOfJson
+      let ok := weightOrderSpec pools (got.map (·.1))
+      pure (ok, if ok then "" else "the returned order is not the input pools by weight descending (ties: name descending)")
+  pure { model := some modelJ, spec := some specOk, why := why }
+
+/-! ## c19.price -/
+
+/-- `kept` (in the order given) can be the `n`-prefix of a sorted permutation of `its`:
+    witness = `kept` followed by the remaining types in model order -/
+def prefixAllowed (reqs : List Req) (n : Int) (its kept : List IType) : Bool :=
+  let rest := its.filter (fun t => !kept.contains t)
+  allowedTruncation reqs n its (kept ++ orderByPrice reqs rest) kept
+
+def price (inp impl : Json) : Except String Resp := do
+  let reqs ← parseReqs inp "reqs"
+  let its ← (← arrF inp "types").mapM parseType
+  let max ← intF inp "max"
+  let minTypes ← natO inp "min_types"
+  let bestEffort ← boolD inp "best_effort" false
+  if !distinctNames its then throw "duplicate type names are outside the model"
+  match fldOpt impl "ordered" with
+  | none => pure { spec := some false, why := "implementation produced no output (panic?)" }
+  | some o => do
+    let orderedN ← strList o
+    let truncN ← strList (← fld impl "truncated")
+    let err ← strF impl "err"
+    match typesNamed its orderedN, typesNamed its truncN with
+    | some ordered, some trunc =>
+      let okOrder := allowedSort (cheaper reqs) its ordered
+      -- what the model says about the error: decided on the prefix of ANY sorted permutation (its length is fixed)
+      let keptLen := (sliceTo max ordered)
+      let failsM := truncateFails minTypes bestEffort keptLen
+      let okTrunc :=
+        if failsM then err == "minvalues" && allowedSort (cheaper reqs) its trunc
+        else err == "" && prefixAllowed reqs max its trunc
+      let allowed := okOrder && okTrunc
+      let whyA := if okOrder then (if okTrunc then "" else s!"Truncate: model expects error={failsM}, a {max}-prefix of a price-sorted permutation")
+                  else "OrderByPrice: not a price-sorted permutation of the input"
+      let specRank := rankedSpec reqs its orderedN
+      let specTrunc := if err == "" then cheapestKeptSpec reqs max its truncN else rankedSpec reqs its truncN
+      let whyS := if !specRank then "OrderByPrice ranks a dearer type (by cheapest compatible available offering) before a cheaper one, or loses/invents a type"
+                  else if !specTrunc then s!"Truncate to {max} dropped a cheaper type in favour of a dearer one (or kept the wrong number)"
+                  else ""
+      pure { allowed := some allowed, spec := some (specRank && specTrunc), why := if whyS.isEmpty then whyA else whyS }
+    | _, _ => pure { allowed := some false, spec := some false, why := "the implementation returned a type that is not in the input" }
+
+/-! ## c19.offerings -/
+
+def offerings (inp impl : Json) : Except String Resp := do
+  let reqs ← parseReqs inp "reqs"
+  let ofs ← (← arrF inp "offerings").mapM parseOffering
+  let sel := (ofs.filter (·.available)).filter (offeringCompat reqs)
+  let model := jObj [("cheapest", jOptNat (cheapestAvailableCompatible reqs ofs)),
+                     ("dearest", jOptNat (dearestAvailableCompatible reqs ofs)),
+                     ("count", jNat sel.length), ("has", jBool (!sel.isEmpty))]
+  -- spec: the reported cheapest price is the least price of a usable offering
+  let us := (ofs.filter (usable reqs)).map (·.price)
+  let (specOk, why) ← match impl.getObjVal? "count" with
+    | .error _ => pure (false, "implementation produced no output (panic?)")
+    | .ok _ => do
+      let c ← natO impl "cheapest"
+      let d ← natO impl "dearest"
+      let okC := match c with
+        | none => us.isEmpty
+        | some p => us.contains p && us.all (fun q => decide (p ≤ q))
+      let okD := match d with
+        | none => us.isEmpty
+        | some p => us.contains p && us.all (fun q => decide (q ≤ p))
+      pure (okC && okD, if okC && okD then "" else "Cheapest/MostExpensive is not the least/greatest price among the available compatible offerings")
+  pure { model := some model, spec := some specOk, why := why }
+
+/-! ## c19.tonodeclaim -/
+
+/-- a set of names (any order) can be what `OrderByPrice` + `Slice(0, n)` keeps -/
+def keptSetAllowed (reqs : List Req) (n : Int) (its : List IType) (names : List String) : Bool :=
+  match typesNamed its names with
+  | none => false
+  | some kept => noDuplicates names && prefixAllowed reqs n its (orderByPrice reqs kept)
+
+def toNodeClaim (inp impl : Json) : Except String Resp := do
+  let reqs ← parseReqs inp "reqs"
+  let its ← (← arrF inp "types").mapM parseType
+  let static ← boolF inp "static"
+  let pool ← strF inp "pool"
+  let maxT : Int := match (← intO inp "max_types") with
+    | some m => m
+    | none => (maxInstanceTypes : Int)
+  if !distinctNames its then throw "duplicate type names are outside the model"
+  match fldOpt impl "types" with
+  | none => pure { spec := some false, why := "implementation produced no output (panic?)" }
+  | some t => do
+    let got ← strList t
+    let hasReq ← boolF impl "has_type_req"
+    let label ← strF impl "pool_label"
+    let modelNames := toNodeClaimTypes static reqs maxT its
+    let allowed := label == pool &&
+      (match modelNames with
+       | none => got.isEmpty && !hasReq
+       | some _ => keptSetAllowed reqs maxT its got)
+    let specOk := label == pool && (if static then got.isEmpty else cheapestKeptSpec reqs maxT its got)
+    pure { allowed := some allowed, spec := some specOk,
+           why := if specOk then (if allowed then "" else "not the prefix of a price-sorted permutation")
+                  else s!"the NodeClaim's instance types are not the {maxT} cheapest options (or the NodePool label is wrong)" }
+
+/-! ## c19.parallel -/
+
+def parallel (inp impl : Json) : Except String Resp := do
+  let workers ← intF inp "workers"
+  let cont ← boolList (← fld inp "cont")
+  let stops := cont.map (!·)
+  let w := workers.toNat
+  match fldOpt impl "processed" with
+  | none => pure { spec := some false, why := "implementation produced no output (panic?)" }
+  | some p => do
+    let processed ← natList p
+    let published ← intF impl "published"
+    let returned ← boolF impl "returned_after_all_finished"
+    let maxActive ← natF impl "max_active"
+    let k := (processed.takeWhile (· == 1)).length
+    let prefixShape := processed == List.replicate k 1 ++ List.replicate (processed.length - k) 0
+    let outs := stops.map (fun s => if s then Outcome.ok else Outcome.fail)
+    let firstStop : Int := match firstDecisive outs with | some (i, _) => (i : Int) | none => -1
+    let expectedPublished : Int := if w = 0 then -1 else firstStop
+    let allowed := processed.length == cont.length && prefixShape && allowedEvaluated w stops k &&
+      published == expectedPublished && returned && decide (maxActive ≤ min w cont.length)
+    -- spec: nothing is evaluated twice; with at least one worker every piece up to and including the first
+    -- stopping one (all pieces when none stops) was evaluated; the least stopping index is what gets published
+    let need := if w = 0 then 0 else (match firstDecisive outs with | some (i, _) => i + 1 | none => cont.length)
+    let okOnce := processed.all (· ≤ 1)
+    let okNeed := (processed.take need).all (· == 1)
+    let okPub := published == expectedPublished
+    let specOk := okOnce && okNeed && okPub && returned
+    pure { allowed := some allowed, spec := some specOk,
+           why := if specOk then (if allowed then "" else s!"evaluated prefix {k} of {cont.length} is not reachable with {w} workers")
+                  else if !okOnce then "a piece was evaluated twice"
+                  else if !okNeed then s!"with {w} workers the pieces 0..{need - 1} (up to the first stopping piece) must all be evaluated; evaluated: {processed}"
+                  else if !okPub then s!"index {published} was published instead of the first stopping index {expectedPublished}"
+                  else "parallelizeUntil returned while an evaluation was still running" }
+
+/-! ## c19.pass -/
+
+def parseLabels (j : Json) : Except String (List (String × String)) :=
+  match j with
+  | .obj kvs => kvs.toList.mapM (fun (k, v) => do pure (k, ← asStr v))
+  | .null => pure []
+  | _ => .error "labels: object expected"
+
+def parsePool (j : Json) : Except String PPool := do
+  pure { name := ← strF j "name", weight := (← intO j "weight").getD 0,
+         ready := ← boolF j "ready", static := ← boolF j "static", deleting := ← boolF j "deleting",
+         reqs := ← parseReqs j "reqs",
+         labels := ← parseLabels ((fldOpt j "labels").getD Json.null),
+         taints := ← (do strList ((fldOpt j "taints").getD (Json.arr #[]))),
+         types := ← (← arrD j "types").mapM parsePType }
+
+def parsePod (j : Json) : Except String PPod := do
+  let sel ← parseReqs j "sel"
+  let aff ← parseReqs j "aff"
+  pure { name := ← strF j "name", cpu := ← natF j "cpu", reqs := sel ++ aff,
+         tol := ← (do strList ((fldOpt j "tol").getD (Json.arr #[]))) }
+
+def parseClaim (j : Json) : Except String Claim := do
+  pure { pool := ← strF j "pool", pods := ← (do strList (← fld j "pods")), types := ← (do strList (← fld j "types")) }
+
+/-- the model's prediction for a pod that needs a new node: the usable pools in `OrderByWeight` order, one outcome per
+    template, the sequential first success (C19_first_success: every schedule gives the same) -/
+def modelPool (pools : List PPool) (pod : PPod) : Option String :=
+  let usablePools := pools.filter poolUsable
+  let keyed := usablePools.map (fun p => ({ name := bytesOf p.name, weight := p.weight } : Pool))
+  let ordered := orderByWeight keyed
+  let poolOf (k : Pool) : Option PPool := usablePools.find? (fun p => bytesOf p.name == k.name)
+  let outs := ordered.map (fun k => match poolOf k with
+    | some p => if hosts p [pod] then Outcome.ok else Outcome.fail
+    | none => Outcome.fail)
+  match sequentialResult outs with
+  | none => none
+  | some i => (ordered[i]?.bind poolOf).map (·.name)
+
+def claimAllowed (pools : List PPool) (pods : List PPod) (maxTypes : Int) (c : Claim) : Option String :=
+  match c.pods.head?.bind (findPod pods), findPool pools c.pool with
+  | some opener, some p =>
+    if modelPool pools opener != some p.name then
+      some s!"model: pod {opener.name} opens its node in {modelPool pools opener}, implementation used {p.name}"
+    else
+      let group := c.pods.filterMap (findPod pods)
+      let opts := (optionsFor p group).map toIType
+      if !keptSetAllowed (claimReqs p group) maxTypes opts c.types then
+        some s!"model: instance types {c.types} of the claim in {p.name} are not a {maxTypes}-prefix of a price-sorted permutation of {opts.map (·.name)}"
+      else none
+  | _, _ => some "model: claim names an unknown pod or pool"
+
+def pass (inp impl : Json) : Except String Resp := do
+  let pools ← (← arrF inp "pools").mapM parsePool
+  let pods ← (← arrF inp "pods").mapM parsePod
+  let maxTypes ← intF inp "max_types"
+  if !noDuplicates (pools.map (·.name)) then throw "duplicate pool names are outside the model"
+  if !pools.all (fun p => noDuplicates (p.types.map (·.name))) then throw "duplicate type names are outside the model"
+  match fldOpt impl "runs" with
+  | none => pure { spec := some false, why := "implementation produced no output (panic?)" }
+  | some runsJ => do
+    let herr := (← strO impl "err").getD ""
+    if !herr.isEmpty then throw s!"harness could not run the pass: {herr}"
+    let runs ← asArr runsJ
+    let mut specWhy : Option String := none
+    let mut allowWhy : Option String := none
+    for r in runs do
+      let claims ← (← arrF r "claims").mapM parseClaim
+      -- pods the pass neither placed nor reported (e.g. "no dynamic nodepools found") are unscheduled as well
+      let unsched := (← strList (← fld r "unscheduled")) ++ (← strList (← fld r "missing"))
+      if specWhy.isNone then specWhy := passVerdict pools pods maxTypes claims unsched
+      if allowWhy.isNone then
+        allowWhy := claims.findSome? (claimAllowed pools pods maxTypes)
+      if allowWhy.isNone then
+        allowWhy := (unsched.filterMap (findPod pods)).findSome? (fun pod =>
+          match modelPool pools pod with
+          | some n => some s!"model: pod {pod.name} opens a node in {n}, implementation left it unscheduled"
+          | none => none)
+    pure { allowed := some allowWhy.isNone, spec := some specWhy.isNone,
+           why := (specWhy.getD (allowWhy.getD "")) }
+
+/-! ## c19.reserved -/
+
+def reservedOverhead : Nat := 100
+
+def parseRPool (j : Json) : Except String RPool := do
+  let name ← strF j "name"
+  let limit ← natO j "limit"
+  pure { name := name, key := bytesOf name, weight := (← intO j "weight").getD 0, team := ← strF j "team",
+         cpu := ← natF j "cpu", alloc := (← natF j "cpu") - reservedOverhead, cap := ← natF j "cap",
+         limit := match limit with | some 0 => none | l => l }
+
+def parseRPod (j : Json) : Except String RPod := do
+  pure { name := ← strF j "name", cpu := ← natF j "cpu", team := ← strF j "team" }
+
+def sortStrings (l : List String) : List String := sortBy (fun a b => decide (a < b)) l
+
+def reserved (inp impl : Json) : Except String Resp := do
+  let pools ← (← arrF inp "pools").mapM parseRPool
+  let pods ← (← arrF inp "pods").mapM parseRPod
+  if !noDuplicates (pools.map (·.name)) || !noDuplicates (pods.map (·.name)) then throw "duplicate names are outside the model"
+  let res := Karp.ReservedFallback.pass pools pods
+  let placedM := sortStrings (res.filterMap (fun (n, v) => match v with | .placed _ => some n | _ => none))
+  let poolOfM (n : String) : String := match res.lookup n with | some (.placed q) => q | _ => "?"
+  let modelRun := jObj [
+    ("placed", jArr (placedM.map (fun n => jObj [("pod", jStr n), ("pool", jStr (poolOfM n))]))),
+    ("deferred", jArr ((sortStrings (res.filterMap (fun (n, v) => if v == .deferred then some n else none))).map jStr)),
+    ("unschedulable", jArr ((sortStrings (res.filterMap (fun (n, v) => if v == .unschedulable then some n else none))).map jStr))]
+  let model := jObj [("runs", jArr [modelRun]), ("err", jStr "")]
+  match fldOpt impl "runs" with
+  | none => pure { model := some model, spec := some false, why := "implementation produced no output (panic?)" }
+  | some runsJ => do
+    let herr := (← strO impl "err").getD ""
+    if !herr.isEmpty then throw s!"harness could not run the pass: {herr}"
+    let mut why : Option String := none
+    for r in (← asArr runsJ) do
+      let placed ← (← arrF r "placed").mapM (fun j => do pure ((← strF j "pod"), (← strF j "pool")))
+      let deferred ← strList (← fld r "deferred")
+      let unsched ← strList (← fld r "unschedulable")
+      if why.isNone then why := Karp.Spec.PoolPass.Reserved.verdict pools pods placed deferred unsched
+    pure { model := some model, spec := some why.isNone, why := why.getD "" }
+
+def handle : Handler := fun op inp impl =>
+  match op with
+  | "c19.weight" => weight inp impl
+  | "c19.price" => price inp impl
+  | "c19.offerings" => offerings inp impl
+  | "c19.tonodeclaim" => toNodeClaim inp impl
+  | "c19.parallel" => parallel inp impl
+  | "c19.pass" => pass inp impl
+  | "c19.reserved" => reserved inp impl
+  | _ => .error s!"unknown op {op}"
 
 end Karp.Driver.C19
